@@ -39,6 +39,8 @@ pub enum Case {
         #[serde(default)]
         route: u8,
     },
+    /// the command-line tool against a real loopback Java server: the handshake it sends for `-i <address or name>`, `--hostname`, `--protocol-version`
+    JavaCli { status: JavaStatus, hostname: Option<String>, protocol_version: Option<u32>, by_name: bool },
     /// Eco over HTTP (real loopback server: ureq bypasses the scripted transport): request line and Host header
     Eco { v6: bool, hostname: Option<String>, via_generic: bool, idx: u64 },
 }
@@ -182,7 +184,9 @@ impl Prop for C09 {
             .prop_map(|(status, hostname, protocol_version, port, via_extra, route)| Case::Java { status, hostname, protocol_version, port, via_extra, route });
         let eco = (any::<bool>(), prop::option::of(prop_oneof![Just("eco.example.net".to_string()), "[a-z]([a-z0-9-]{0,20}[a-z0-9])?(\\.[a-z][a-z0-9]{0,9}){0,3}".prop_map(|s| s)]), any::<bool>(), 0u64 .. 64)
             .prop_map(|(v6, hostname, via_generic, idx)| Case::Eco { v6, hostname, via_generic, idx });
-        prop_oneof![24 => game, 12 => valve, 8 => gs3, 8 => java, 1 => eco].boxed()
+        let java_cli = (java_status(), prop::option::of(text(&[], 40).prop_filter("non-empty", |s| !s.is_empty())), prop::option::of(prop_oneof![0u32 .. 1000, 0u32 ..= i32::MAX as u32]), any::<bool>())
+            .prop_map(|(status, hostname, protocol_version, by_name)| Case::JavaCli { status, hostname, protocol_version, by_name });
+        prop_oneof![240 => game, 120 => valve, 80 => gs3, 80 => java, 10 => eco, 3 => java_cli].boxed()
     }
 
     fn enumerated<'a>(&'a self, tier: Tier, shard: usize, nshards: usize) -> Box<dyn Iterator<Item = Case> + 'a> {
@@ -337,6 +341,115 @@ impl Prop for C09 {
                     o.fail("C09|eco::query|http request|request line", detail);
                 } else if !reqs[0].1.iter().any(|(k, v)| k == "host" && v.eq_ignore_ascii_case(&want_host)) {
                     o.fail("C09|eco::query|http request|Host header", detail);
+                }
+            }
+            Case::JavaCli { status, hostname, protocol_version, by_name } => {
+                o.label("java-route=gamedig_cli");
+                o.label(if *by_name { "cli-address=name" } else { "cli-address=literal" });
+                o.nontrivial = true;
+                // the address `localhost` resolves to, found the way the tool finds it
+                let ip: IpAddr = if *by_name {
+                    use std::net::ToSocketAddrs;
+                    match "localhost:0".to_socket_addrs().ok().and_then(|mut a| a.next()) {
+                        Some(a) => a.ip(),
+                        None => {
+                            o.excluded = Some("`localhost` does not resolve here".into());
+                            o.nontrivial = false;
+                            return o;
+                        }
+                    }
+                } else {
+                    std::net::Ipv4Addr::LOCALHOST.into()
+                };
+                let spec = McServerSpec {
+                    speaks: 1,
+                    java: status.clone(),
+                    bedrock: sample_one(&crate::models::minecraft::bedrock_status(), "C09-b", 0),
+                    legacy: sample_one(&crate::models::minecraft::legacy_status(), "C09-l", 0),
+                    close_on_unknown: true,
+                };
+                let want_host = hostname.clone().unwrap_or_else(|| if *by_name { "localhost".to_string() } else { "gamedig".to_string() });
+                let want_pv = protocol_version.map(|v| v as i32).unwrap_or(-1);
+                let cli = std::env::var("GDV_CLI").unwrap_or_else(|_| "/verif/harness/target/cli/debug/gamedig_cli".into());
+                // what follows the handshake on the stream: the literal requests of the reference exchange
+                let tail: Vec<u8> = FamState::Mc(spec.clone()).expected_requests(Family::McJava, Gather { players: 1, rules: 1 }, false).iter().filter_map(|e| e.bytes.clone()).flatten().collect();
+                let mut last: Option<(String, serde_json::Value)> = None;
+                for secs in [2u32, 6] {
+                    let fs = FamState::Mc(spec.clone());
+                    let Some(server) = crate::realnet::RealServer::start(Proto::Tcp, ip, Box::new(move || fs.responder())) else {
+                        o.excluded = Some(format!("cannot bind {ip}"));
+                        o.nontrivial = false;
+                        return o;
+                    };
+                    let port = server.addr.port();
+                    let mut args: Vec<String> = vec!["query".into(), "-g".into(), "minecraftjava".into(), "-i".into(), if *by_name { "localhost".into() } else { "127.0.0.1".into() }, "-p".into(), port.to_string()];
+                    if let Some(h) = hostname {
+                        args.push(format!("--hostname={h}"));
+                    }
+                    if let Some(v) = protocol_version {
+                        args.push("--protocol-version".into());
+                        args.push(v.to_string());
+                    }
+                    for f in ["--read-timeout", "--connect-timeout", "--write-timeout"] {
+                        args.push(f.into());
+                        args.push(secs.to_string());
+                    }
+                    let out = std::process::Command::new(&cli).args(&args).stdin(std::process::Stdio::null()).env_remove("RUST_BACKTRACE").output();
+                    let Ok(out) = out else {
+                        o.fail("C09|setup|cannot start the CLI", json!({"path": cli}));
+                        return o;
+                    };
+                    // give the server thread a moment to file what it has read
+                    let mut bytes: Vec<u8> = Vec::new();
+                    for _ in 0 .. 50 {
+                        bytes = server.seen.lock().unwrap().received.concat();
+                        if bytes.len() >= 9 + tail.len() {
+                            break;
+                        }
+                        std::thread::sleep(std::time::Duration::from_millis(10));
+                    }
+                    let detail = |what: serde_json::Value| json!({"args": args, "exit": out.status.code(), "stderr": String::from_utf8_lossy(&out.stderr).chars().take(300).collect::<String>(), "server_received": hex(&bytes), "info": what});
+                    // two frames: handshake, status request
+                    let mut p = 0usize;
+                    let mut len = 0usize;
+                    let mut shift = 0;
+                    while let Some(b) = bytes.get(p) {
+                        len |= ((b & 0x7F) as usize) << shift;
+                        shift += 7;
+                        p += 1;
+                        if b & 0x80 == 0 || shift > 28 {
+                            break;
+                        }
+                    }
+                    let verdict: Option<(String, serde_json::Value)> = if bytes.is_empty() {
+                        Some(("nothing reached the server".into(), detail(json!({}))))
+                    } else if bytes.len() < p + len {
+                        Some(("java handshake framing".into(), detail(json!({}))))
+                    } else {
+                        match parse_handshake(&bytes[.. p + len]) {
+                            None => Some(("java handshake framing".into(), detail(json!({})))),
+                            Some(h) if h.protocol != want_pv => Some(("java handshake protocol version".into(), detail(json!({"sent": h.protocol, "expected": want_pv})))),
+                            Some(h) if h.host != want_host => Some(("java handshake host name".into(), detail(json!({"sent": h.host, "expected": want_host})))),
+                            Some(h) if h.port_be != port => Some(("java handshake port (big-endian)".into(), detail(json!({"sent_be": h.port_be, "expected": port})))),
+                            Some(h) if h.next_state != 1 => Some(("java handshake next state".into(), detail(json!({"sent": h.next_state})))),
+                            Some(_) if bytes[p + len ..] != tail[..] => Some(("status request".into(), detail(json!({"after_handshake": hex(&bytes[p + len ..]), "expected": hex(&tail)})))),
+                            Some(_) => None,
+                        }
+                    };
+                    match verdict {
+                        None => {
+                            last = None;
+                            break;
+                        }
+                        // (an empty or cut-off capture can be scheduling noise: judged on the patient run)
+                        Some(v) => last = Some(v),
+                    }
+                    if !matches!(last.as_ref().map(|l| l.0.as_str()), Some("nothing reached the server") | Some("java handshake framing") | Some("status request")) {
+                        break;
+                    }
+                }
+                if let Some((what, detail)) = last {
+                    o.fail(format!("C09|gamedig_cli[minecraftjava]|{what}"), detail);
                 }
             }
             Case::Java { status, hostname, protocol_version, port, via_extra, route } => {
